@@ -107,9 +107,13 @@ def run_translators(cfg, log):
     names = cfg.get("translators", [])
     if not names:
         return True, []
-    rc, out = sh([sys.executable, os.path.join(VERIF, "tools", "translate.py"), "--repo", REPO] + names)
-    log.append(out)
-    return rc == 0, names
+    ok = True
+    with Lock("lake"):
+        for n in names:
+            rc, out = sh([sys.executable, os.path.join(VERIF, "tools", "translate_%s.py" % n), "--repo", REPO])
+            log.append(out)
+            ok = ok and rc == 0
+    return ok, names
 
 
 # ---------------------------------------------------------------------------------------------
